@@ -30,7 +30,7 @@ type org struct {
 	why  string
 }
 
-func (x org) detail() string { return clip(x.path, 70) + " (" + clip(x.why, 110) + ")" }
+func (x org) detail() string { return clip(x.path, 70) + " (" + clip(x.why, 170) + ")" }
 func (x org) wrap(suffix string) org {
 	x.path += suffix
 	return x
@@ -144,14 +144,8 @@ func (a *analyzer) origin(v ssa.Value, seen seenSet) org {
 		return a.load(v.X, v.Type(), seen).wrap("[k]")
 	case *ssa.Slice:
 		return a.origin(v.X, seen).wrap("[:]")
-	case *ssa.ChangeType:
-		return a.origin(v.X, seen)
-	case *ssa.ChangeInterface:
-		return a.origin(v.X, seen)
-	case *ssa.MakeInterface:
-		return a.origin(v.X, seen)
-	case *ssa.SliceToArrayPointer:
-		return a.origin(v.X, seen)
+	case *ssa.ChangeType, *ssa.ChangeInterface, *ssa.MakeInterface, *ssa.SliceToArrayPointer, *ssa.Range:
+		return a.origin(*v.(ssa.Instruction).Operands(nil)[0], seen) // same object, other static type
 	case *ssa.Convert:
 		if isString(v.X.Type()) || isString(v.Type()) {
 			return org{Fresh, "convert", "string conversion copies"}
@@ -178,8 +172,6 @@ func (a *analyzer) origin(v ssa.Value, seen seenSet) org {
 		return org{Fresh, v.Name(), "arithmetic"}
 	case *ssa.BinOp:
 		return org{Fresh, v.Name(), "arithmetic"}
-	case *ssa.Range:
-		return a.origin(v.X, seen)
 	case *ssa.Next:
 		return a.origin(v.Iter, seen)
 	case *ssa.Extract:
@@ -298,18 +290,8 @@ func (a *analyzer) stored(r ssa.Value, seen seenSet) org {
 		work = work[1:]
 		for _, ref := range *d.Referrers() {
 			switch ref := ref.(type) {
-			case *ssa.FieldAddr:
-				add(ref)
-			case *ssa.IndexAddr:
-				add(ref)
-			case *ssa.Slice:
-				add(ref)
-			case *ssa.Phi:
-				add(ref)
-			case *ssa.MakeInterface:
-				add(ref)
-			case *ssa.ChangeType:
-				add(ref)
+			case *ssa.FieldAddr, *ssa.IndexAddr, *ssa.Slice, *ssa.Phi, *ssa.MakeInterface, *ssa.ChangeType:
+				add(ref.(ssa.Value)) // another view of (part of) the same container
 			case *ssa.Store:
 				if ref.Addr == d {
 					res = join(res, a.origin(ref.Val, seen))
